@@ -5,6 +5,7 @@ import (
 	"encoding/json"
 	"fmt"
 	"net/url"
+	"os"
 	"reflect"
 	"sort"
 	"strconv"
@@ -1623,6 +1624,13 @@ func (self *Fork) expandForkFromRef(must bool, i int,
 			"fork %s matched %d out of %d forks of %s, need exactly 1",
 			self.forkId.GoString(),
 			len(matchedForks), len(bNode.forks), bNode.GetFQName())
+	}
+	// The outputs of a fork are written before they are checked.  Until the
+	// fork is marked complete - in particular if it failed that check and
+	// is going to be run again - they say nothing about the forks to make.
+	if _, err := os.Stat(matchedForks[0].metadata.MetadataFilePath(
+		CompleteFile)); err != nil {
+		return nil, nil
 	}
 	ready, obj, err := matchedForks[0].resolveRef(ref, nil,
 		bNode.call.Call().DecId, readSizeLimit)
